@@ -261,7 +261,9 @@ def duration_forms(n, u, words=True, digits=True):
 # ---- inert words -------------------------------------------------------------------------------------
 INERT_CANDIDATES = ["xyzzy", "plugh", "qux", "zork", "blorb", "wibble", "grue", "frotz", "kwyjibo", "lorem",
                     "ipsum", "gizmo", "quark", "zebra", "pizza", "kiwi", "yoga", "jazz", "lunch", "call",
-                    "buy", "milk", "review", "budget", "gym", "pickup", "kids", "flight", "zahnarzt", "kino"]
+                    "buy", "milk", "review", "budget", "gym", "pickup", "kids", "flight", "zahnarzt", "kino",
+                    # inert words that are not made of letters only ('#' without being a hashtag, digits inside, punctuation)
+                    "C#", "F#", "#", "R2D2x", "w/o", "AT&T", "e=mc", "50%x", "@home", "foo_bar"]
 
 
 # ---- token soups: random sequences of lexemes of every category (renders Derive.tla's alphabet) ------
